@@ -12,6 +12,7 @@ func Gen(t *rapid.T) *Case {
 		Procs:    rapid.SampledFrom([]int{1, 1, 2, 4, 16}).Draw(t, "procs"),
 		End:      rapid.SampledFrom([]string{"wait", "wait", "wait", "shutdown_bg", "shutdown_cancelled", "shutdown_timeout", "shutdown_timeout"}).Draw(t, "end"),
 		SyncToo:  rapid.IntRange(0, 3).Draw(t, "sync") == 0,
+		ViaAny:   rapid.IntRange(0, 3).Draw(t, "viaAny") == 0,
 	}
 	if rapid.Bool().Draw(t, "hasAmbient") {
 		c.Ambient = rapid.IntRange(0, busmodel.AmbAll).Draw(t, "ambient")
